@@ -216,6 +216,13 @@ def parse_reports(text_lines, repo_src=None):
             j = i + 1
             while j < n and _frame_re2.match(text_lines[j]):
                 j += 1
+            if re.search(r"variable length array bound evaluates to "
+                         r"non-positive value 0$", m.group(4)):
+                # a zero-length VLA (a system without equations, an object
+                # without ports) is never indexed; a NEGATIVE bound is
+                # reported
+                i = j
+                continue
             block = text_lines[i:j]
             fr = _lib_frames(block, repo_src)
             if not fr:
@@ -581,8 +588,12 @@ class Check:
                   level=self.level, coverage=cov,
                   assumptions=list(assumptions), wall_s=round(wall, 2),
                   violations=len(new))
-        os.makedirs(os.path.join(VERIF, "evidence"), exist_ok=True)
-        with open(os.path.join(VERIF, "evidence", self.prop + ".json"), "w") as f:
+        # a coverage-measuring run (tools/coverage.sh) uses an unsanitized
+        # build: what it observes is not evidence
+        evdir = os.environ.get("VERIF_EVIDENCE_DIR") or \
+            os.path.join(VERIF, "evidence")
+        os.makedirs(evdir, exist_ok=True)
+        with open(os.path.join(evdir, self.prop + ".json"), "w") as f:
             json.dump(ev, f, indent=1, sort_keys=True, default=str)
             f.write("\n")
         self.cleanup()
